@@ -53,6 +53,8 @@ CfgDef == [ ebgp   |-> [ibgp |-> FALSE, hold |-> 90, role |-> "none",     strict
             ebgpA  |-> [ibgp |-> FALSE, hold |-> 90, role |-> "none",     strict |-> FALSE, addpath |-> FALSE, rrc |-> "no", other |-> FALSE, active |-> TRUE, v6only |-> FALSE],
             ibgpA  |-> [ibgp |-> TRUE,  hold |-> 90, role |-> "none",     strict |-> FALSE, addpath |-> FALSE, rrc |-> "no", other |-> FALSE, active |-> TRUE, v6only |-> FALSE],
             apA    |-> [ibgp |-> FALSE, hold |-> 90, role |-> "none",     strict |-> FALSE, addpath |-> TRUE,  rrc |-> "no", other |-> FALSE, active |-> TRUE, v6only |-> FALSE],
+            \* iBGP inside a 4-octet AS: the 2-octet field of every OPEN says AS_TRANS, the real AS is in the capability
+            ibgp4  |-> [ibgp |-> TRUE,  hold |-> 90, role |-> "none",     strict |-> FALSE, addpath |-> FALSE, rrc |-> "no", other |-> FALSE, active |-> FALSE, v6only |-> FALSE],
             \* add-path send is configured (several paths per prefix), add-path receive is not
             apTx   |-> [ibgp |-> FALSE, hold |-> 90, role |-> "none",     strict |-> FALSE, addpath |-> FALSE, rrc |-> "no", other |-> FALSE, active |-> FALSE, v6only |-> FALSE],
             \* only the IPv6 address family is configured for the peer
@@ -120,6 +122,9 @@ UpdDef == [ annA      |-> U(TRUE, {N("a", 0)}, {}, {}),
             annLoop   |-> U(TRUE, {N("l", 0)}, {}, {}),                        \* prefix "l": its AS_PATH contains the local AS (stored, never eligible)
             \* well-formed UPDATEs with further attributes: AS4_AGGREGATOR, AS4_PATH, AGGREGATOR + ATOMIC_AGGREGATE, an unknown transitive
             \* attribute, communities and large communities
+            \* MP_REACH_NLRI that ends right after its next hop (no reserved octet, no NLRI): it announces nothing; the code takes it as
+            \* an empty announcement, which no listed property forbids - what matters is that it does no harm
+            mpNoReserved |-> U(TRUE, {}, {}, {}),
             annAas4aggr |-> U(TRUE, {N("a", 0)}, {}, {}),
             annAas4path |-> U(TRUE, {N("a", 0)}, {}, {}),
             annAaggr    |-> U(TRUE, {N("a", 0)}, {}, {}),
